@@ -1,2 +1,2 @@
 #[cfg(kani)]
-pub use matrix::verif_stub_mul_arr;
+pub use matrix::{verif_stub_invert, verif_stub_mul_arr};
